@@ -90,6 +90,12 @@ class Exprs:
             return self.call(x, depth + 1, stack + (l,))
         # drop flags and loop variables: opaque
         nm = self.names.get(l)
+        if nm is None and l in self.escaped and len(real) == 1 and len(ds) == 1 and depth < self.max_depth and l not in stack:
+            # an unnamed temporary that is only borrowed mutably (a lock guard, a builder): keep its
+            # provenance, but mark the value as mutable so that nothing folds it to a constant
+            kind, bi, si, x = real[0]
+            inner = self.rvalue(x, depth + 1, stack + (l,)) if kind == "rv" else self.call(x, depth + 1, stack + (l,))
+            return ("mut", inner)
         return ("var", nm if nm else "_%d" % l)
 
     def place(self, pl, depth=0, stack=()):
@@ -263,6 +269,8 @@ def fmt(e):
         return "()"
     if k == "repeat":
         return "[%s; %s]" % (fmt(e[1]), e[2])
+    if k == "mut":
+        return fmt(e[1])
     if k == "subslice":
         return "%s[%s..%s]" % (fmt(e[1]), e[2], e[3])
     if k == "closure":
@@ -299,7 +307,7 @@ def walk(e):
 
 KINDS = {"const", "str", "bytes", "fn", "item", "unit", "param", "var", "upvar", "field", "index", "variant",
          "bin", "un", "call", "agg", "discr", "cast", "len", "closure", "icall", "repeat", "tls", "constty",
-         "unknown", "ovf", "subslice", "cparam"}
+         "unknown", "ovf", "subslice", "cparam", "mut"}
 
 
 def contains(e, pred):
